@@ -571,7 +571,7 @@ fn random_triple(rng: &mut Rng, table: &[u8]) -> (Vec<u8>, Vec<u8>, Vec<(u8, u8)
 
 pub fn run(p: &Params) -> Outcome {
     let seed = p.seed;
-    let n_random = p.size(1_500, 200_000) as usize;
+    let n_random = p.size(1_500, 100_000) as usize;
     let perms = if p.thorough { 20 } else { 6 };
     let msm: Vec<u16> = gen::supported_numbers().iter().copied().filter(|n| is_msm(*n)).collect();
     let nm = msm.len();
